@@ -236,3 +236,43 @@ func beforeGoOnly(done chan struct{}) {
 		report(buf.Len())
 	}()
 }
+
+// the same three with a small type and a go statement on one of its methods (no closure): what is
+// shared are the arguments of the go statement and what the fields of the struct point to
+
+type watcher struct {
+	buf *buffer
+	n   atomic.Int64
+}
+
+func (w *watcher) size() int { return w.buf.Len() }
+func (w *watcher) run(done chan struct{}) {
+	<-done
+	report(w.size())
+}
+func (w *watcher) count(done chan struct{}) {
+	<-done
+	report(int(w.n.Load()))
+}
+
+func racyMethod(done chan struct{}) {
+	buf := &buffer{}
+	w := &watcher{buf: buf}
+	go w.run(done)
+	buf.Add(work())
+}
+
+func viaAtomicMethod(done chan struct{}) {
+	buf := &buffer{}
+	w := &watcher{}
+	go w.count(done)
+	buf.Add(work())
+	w.n.Store(int64(buf.Len()))
+}
+
+func beforeGoOnlyMethod(done chan struct{}) {
+	buf := &buffer{}
+	buf.Add(work())
+	w := &watcher{buf: buf}
+	go w.run(done)
+}
